@@ -95,13 +95,15 @@ func (m *midElement) ReleaseMessage(cc *Conn) {
 	}
 }
 
-func (m *midElement) IsExpired(now time.Time, maxRetransmit uint32) bool {
+func (m *midElement) IsExpired(now time.Time, maxRetransmit uint32, acknowledgeTimeout time.Duration) bool {
 	if !m.deadline.IsZero() && now.After(m.deadline) {
 		// remove element if deadline is exceeded
 		return true
 	}
 	retransmit := m.retransmit.Load()
-	return retransmit >= maxRetransmit
+	// all copies are out and the timeout of the last one has passed as well: until then its
+	// acknowledgement is still awaited (RFC 7252 section 4.2)
+	return retransmit >= maxRetransmit && now.After(m.start.Add(acknowledgeTimeout*time.Duration(retransmit+1)))
 }
 
 func (m *midElement) Retransmit(now time.Time, acknowledgeTimeout time.Duration) bool {
@@ -991,7 +993,7 @@ func (cc *Conn) Done() <-chan struct{} {
 }
 
 func (cc *Conn) checkMidHandlerContainer(now time.Time, maxRetransmit uint32, acknowledgeTimeout time.Duration, key int32, value *midElement) {
-	if value.IsExpired(now, maxRetransmit) {
+	if value.IsExpired(now, maxRetransmit, acknowledgeTimeout) {
 		cc.midHandlerContainer.Delete(key)
 		value.ReleaseMessage(cc)
 		cc.errors(fmt.Errorf(errFmtWriteRequest, context.DeadlineExceeded))
